@@ -75,8 +75,9 @@ impl Scenario for C17 {
                 _ => SchedKind::RoundRobin,
             };
             let fine = b.rng.bool();
+            let bb = if fine { *b.rng.pick(&[2u32, 8, 32]) } else { 0 };
             let seed = b.ev_seed();
-            b.push(Step::Rotation { spec: RotationSpec { node: 0, principals, scripts, sched, seed, fine } });
+            b.push(Step::Rotation { spec: RotationSpec { node: 0, principals, scripts, sched, seed, fine, bb } });
             return b.finish();
         }
         let slow = matches!(bk, Bk::V1 | Bk::V3);
@@ -95,8 +96,10 @@ impl Scenario for C17 {
                 let kind = *b.rng.pick(&[Kind::Local, Kind::Secret, Kind::Public, Kind::PkePublic, Kind::PkeSecret]);
                 let byte = b.rng.usize_below(4096);
                 let op = match b.rng.below(if bk == Bk::V1 { 44 } else { 34 }) {
-                    0..=3 => TOp::Encrypt { len: b.rng.usize_below(100) },
-                    4 | 5 => TOp::Sign { len: b.rng.usize_below(100) },
+                    // mostly small messages; now and then one beyond 64 KiB (pooled or cached buffers behave
+                    // differently there)
+                    0..=3 => TOp::Encrypt { len: if b.rng.chance(1, 8) { 66_000 + b.rng.usize_below(9000) } else { b.rng.usize_below(100) } },
+                    4 | 5 => TOp::Sign { len: if b.rng.chance(1, 5) && bk != Bk::V1 { 66_000 + b.rng.usize_below(9000) } else { b.rng.usize_below(100) } },
                     6 => TOp::DecryptOwn,
                     7 => if b.rng.bool() { TOp::DecryptOwn } else { TOp::RefreshOwn },
                     8 => TOp::VerifyOwn,
@@ -169,7 +172,8 @@ impl Scenario for C17 {
         // the other backends have scheduling points at the simulator's seams (every random draw, clock
         // read and hook) in half of their episodes
         let fine = if bk == Bk::V3Lc { b.rng.chance(2, 3) } else { b.rng.bool() };
-        b.push(Step::Threads { spec: ThreadSpec { node: 0, local: fk.local, secret: fk.secret, public: fk.public, pke_public: fk.pke_public, pke_secret: fk.pke_secret, scripts, sched, seed, fine } });
+        let bb = if fine { *b.rng.pick(&[2u32, 4, 16, 64]) } else { 0 };
+        b.push(Step::Threads { spec: ThreadSpec { node: 0, local: fk.local, secret: fk.secret, public: fk.public, pke_public: fk.pke_public, pke_secret: fk.pke_secret, scripts, sched, seed, fine, bb } });
         b.finish()
     }
 }
